@@ -337,6 +337,7 @@ class Ctx:
         self.functions_seen = set()
         self.model = None
         self.max_unroll = 0
+        self.auto_inline = False
 
     def fresh_value(self, name, ty):
         ty = ty.strip()
@@ -522,10 +523,21 @@ class Ctx:
 
     def resolve_inline(self, callee, args):
         """callee text like `SolarTime::get_hour` or `<SolarDay as Tyme>::next`"""
-        if callee not in self.inline:
-            return None
-        spec = self.inline_map[callee]
-        return spec
+        if callee in self.inline:
+            return self.inline_map[callee]
+        if self.auto_inline:
+            # helper functions of the repository that the kernel does not name: inline them when they resolve uniquely
+            m = re.match(r"^(\w+)::(\w+)$", callee)
+            if m:
+                ty, meth = m.group(1), m.group(2)
+                hits = []
+                for name, fl in self.fns.items():
+                    for f in fl:
+                        if name.endswith("::" + meth) and f.args and f.args[0][1] in ("&" + ty, ty):
+                            hits.append(f)
+                if len(hits) == 1:
+                    return hits[0]
+        return None
 
     inline_map = {}
 
